@@ -85,7 +85,7 @@ class LG:
             # bodies that are a bare constant (python keeps no source position for them)
             (f"{m}", "constant-body"), (f"'s{m}'", "constant-body"), (f"{p}.js{m}.Select(lambda j: {m})", "nested-constant-body"),
             # f-strings (tokenised into several tokens since python 3.12): literal parts with blanks, format specs, conversions
-            (f"{p}.g(f'AntiKt{{{p}.a{m}}}EM  Topo{m}')", "fstring"), (f"{p}.g(f'{{{p}.a{m}:03d}}|{{{p}.b!r:>8}}| lambda {p}: (')", "fstring-spec"),
+            (f"{p}.g(f'AntiKt{{{p}.a{m}}}EM  Topo{m}')", "fstring"), (f"{p}.g(f'{{{p}.a{m}=}} and {{ {p}.b = }}')", "fstring-equals"), (f"{p}.g(f'{{{p}.a{m}:03d}}|{{{p}.b!r:>8}}| lambda {p}: (')", "fstring-spec"),
             (f"{p}.h{m}(f\"{{{p}.a{m}}}\" + f'x{{{p}.js{m}.Select(lambda j: j.pt)}}y')", "fstring-nested-lambda"), (f"{p}.js{m}.Where(lambda {p}: {p}.pt > {m}).Select(lambda q: (q.a, q.b))", "two-nested"),
         ]
         if multiline:
